@@ -37,8 +37,8 @@ theorem evalUnits_ewise (units : List Unit') : ∀ (e : Expr), isEwise e = true 
       simp [evalUnits, evalRow, evalUnits_ewise units e h]
   | .fn op args part arr, h => by
       simp only [isEwise, Bool.and_eq_true] at h
-      simp only [evalUnits, h.1, ↓reduceIte]
-      rw [evalList_ewise units args h.2, transpose_pointwise (fun u a => evalRow (firstRow u) a) units args]
+      simp only [evalUnits, h.1.1.1, ↓reduceIte]
+      rw [evalList_ewise units args h.1.1.2, transpose_pointwise (fun u a => evalRow (firstRow u) a) units args]
       simp only [List.map_map]
       apply List.map_congr_left
       intro u _
